@@ -337,7 +337,11 @@ def case_direct(ctx, cov_batch, spec):
 def case_hist(ctx, batch, cov_batch, spec, tag):
     edges, rows, obs = spec["edges"], spec["rows"], spec["obs"]
     try:
-        h = jk.hist_from_catalog(ctx, tag, edges, rows, spec["weighted"])
+        import zlib
+        hsh = zlib.crc32(repr((tag, rows[:3], edges)).encode())
+        workers = spec.get("workers") or [1, 2, 3, 4][hsh % 4]
+        h = jk.hist_from_catalog(ctx, tag, edges, rows, spec["weighted"], workers=workers, sched_seed=hsh % 9973)
+        ctx.bump("hist_workers:%d" % workers)
     except Exception as e:  # noqa: BLE001
         ctx.count(key=("hist-raised", repr(spec)), kind="hist/raised")
         ctx.fail("c03-raises:%s" % type(e).__name__, "HistData.from_catalog raised %s: %s" % (type(e).__name__, e),
